@@ -128,8 +128,9 @@ static const char *tmpdir = "/tmp";
  *   3  AMF: row count of the last order = 0
  *   4..8  the tail cut off (1/8, 1/4, 1/2 of the file, 16 bytes, 1000 bytes): sample data with
  *         loops reaching beyond the cut
- *   9  MOD family: restart byte = song length */
-#define NSPECIAL 9
+ *   9  MOD family: restart byte = song length
+ *   10 MDL: the name of the first sample (IS chunk) filled with 32 non-blank characters */
+#define NSPECIAL 10
 static unsigned char *special_mutant(const unsigned char *src, long n, int which, long *outn, char *kind)
 {
 	unsigned char *b;
@@ -184,6 +185,30 @@ static unsigned char *special_mutant(const unsigned char *src, long n, int which
 		strcpy(kind, "mod-restart");
 		*outn = n;
 		return b;
+	}
+	if (which == 10) {
+		long o = 5;
+		if (n < 16 || memcmp(src, "DMDL", 4))
+			return NULL;
+		while (o + 6 <= n) {
+			unsigned long sz = src[o + 2] | (src[o + 3] << 8) | (src[o + 4] << 16) | ((unsigned long)src[o + 5] << 24);
+			if (src[o] == 'I' && src[o + 1] == 'S') {
+				long k, at = o + 6 + 1 + 1;	/* count byte, sample number byte */
+				if (sz < 34 || at + 32 > n || src[o + 6] == 0)
+					return NULL;
+				b = (unsigned char *)malloc(n);
+				memcpy(b, src, n);
+				for (k = 0; k < 32; k++)
+					b[at + k] = (unsigned char)('A' + k % 26);
+				strcpy(kind, "mdl-name32");
+				*outn = n;
+				return b;
+			}
+			if (sz > (unsigned long)(n - o - 6))
+				return NULL;
+			o += 6 + (long)sz;
+		}
+		return NULL;
 	}
 	if (which == 2 || which == 3) {
 		int ver, chn, len;
